@@ -191,6 +191,7 @@ def c17_worker(res: Result, i: int, n: int) -> None:
     thorough = res.tier == "thorough"
     cells: set = set()
     distinct: set[bytes] = set()
+    prev_out = b""
     for k in range(i, total, n):
         rng = common.rng_for("C17", k)
         b, cell = tiny_records_batch(rng) if k % 97 == 5 else gen_batch(rng, thorough, 60 if not thorough else 200, null_header_keys=True)
@@ -209,8 +210,20 @@ def c17_worker(res: Result, i: int, n: int) -> None:
             new = NewRecordBatch(producer_id=b["producer_id"], producer_epoch=b["producer_epoch"], partition_leader_epoch=b["partition_leader_epoch"],
                                  base_sequence=b["base_sequence"], records=to_kio_records(b, tz_choice), attributes=b["attributes"])
             buf = io.BytesIO()
+            # every fifth batch is appended to a buffer that already holds something (arbitrary bytes, or the previous batch of this
+            # worker): what is written must not depend on where in the buffer it lands
+            lead = b"" if k % 5 else (prev_out if prev_out and k % 2 else rng.randbytes(rng.choice((1, 12, 61, 300))))
+            if lead:
+                buf.write(lead)
+                res.count("batches_appended_to_a_non_empty_buffer")
             (write_new_batch if k % 3 else write_batch)(buf, new)
-            got = buf.getvalue()
+            whole = buf.getvalue()
+            if whole[:len(lead)] != lead or buf.tell() != len(whole):
+                res.violation("write-disturbs-buffer", f"writing a batch changed the {len(lead)} bytes already in the buffer or left the position at {buf.tell()} of {len(whole)}",
+                              {"batch": _public(b), "cell": cell, "lead": lead, "buffer": whole})
+                continue
+            got = whole[len(lead):]
+            prev_out = got if len(got) < 4096 else prev_out
         except Exception as exc:  # noqa: BLE001
             if null_key and isinstance(exc, (TypeError, ValueError)):
                 res.count("null_header_key_refused")  # the format has no encoding for it: refusing is right
@@ -570,6 +583,14 @@ def c18_worker(res: Result, i: int, n: int) -> None:
         b, cell = tiny_records_batch(rng, (49, 50, 51, 64, 100, 128, 300, 1000)[k % 8] if k < 16 else None)
         res.count("batches_of_many_tiny_records")
         work.append((f"tiny-records #{k} n={len(b['records'])}/{cell['kv'][0]}", recref.encode_batch(b), b))
+    for k in range(i, 16 if res.tier == "quick" else 200, n):
+        # a batch without records: what a broker keeps (and serves) after compaction / DeleteRecords removed every record of an idempotent
+        # or transactional producer's batch - header fields, including last offset delta and the timestamps, are preserved
+        rng = common.rng_for("C18", "empty", k)
+        b, _ = gen_batch(rng, False, 3)
+        b["records"] = []
+        res.count("batches_without_records")
+        work.append((f"zero-records #{k}", recref.encode_batch(b), b))
     prev_raw = None
     for label, raw, b in work:
         rng = common.rng_for("C18", "damage", label)
